@@ -145,6 +145,16 @@ func init() {
 			c.Floor("C08.R1", "context poll sites", c.Stats["context_poll_sites"], 1)
 			c.Floor("C08.R3", "hook call sites", c.Stats["hook_call_sites"], 4)
 			checkHandlerCtxProvenance(c, p, R)
+			// the bundled observability must hand back a context derived from the one it got
+			if po := c.Prog(ModOtel); po != nil {
+				c2 := NewCtx(c.Prop, c.Tier, c.Repo)
+				checkOtel(c2, po, "C08.R2")
+				for _, o := range c2.Obls {
+					if strings.Contains(o.Construct, "span-parent-is-the-given-context") || strings.Contains(o.Construct, "returns-the-span-context") || o.Status == Unresolved {
+						c.add(o)
+					}
+				}
+			}
 			c.Assume = append(c.Assume, "user hooks return", "an Observability implementation derives the context it returns from the one it is given (checked for the bundled otel implementation under C20)")
 		},
 	})
